@@ -8,6 +8,7 @@ import (
 	"fmt"
 	"math"
 	"os"
+	"os/exec"
 	"os/signal"
 	"path/filepath"
 	"runtime"
@@ -445,6 +446,11 @@ func checkC12(c *Ctx) {
 				filepath.Join(dir, fmt.Sprintf("lim-%d-%d.%s", ci, n, cb.sink))})
 		}
 	}
+	// no fault at all, but a reader that stops taking data for a while: the file is a FIFO whose reader (another process) takes
+	// 100 kB, pauses for 2 s and then drains the rest. Only the STL sink streams while the render runs.
+	for _, rn := range []string{"uniform", "octree"} {
+		faults = append(faults, c12Fault{"stl", rn, "slow-reader-pauses-2s", 60, -1, filepath.Join(dir, "fifo-"+rn+".stl")})
+	}
 	var mu sync.Mutex
 	outcomes := map[string]int{}
 	parallelFor(len(faults), func(i int) {
@@ -452,6 +458,18 @@ func checkC12(c *Ctx) {
 		var env []string
 		if f.Fault == "single-cpu" {
 			env = []string{"C12_PIN=1"}
+		}
+		if strings.HasPrefix(f.Fault, "slow-reader") {
+			if err := syscall.Mkfifo(f.Path, 0o644); err != nil {
+				c.Count("slow_reader_runs_skipped_no_fifo", 1)
+				return
+			}
+			rd := exec.Command("sh", "-c", `exec <"$0"; head -c 100000 >/dev/null; sleep 2; cat >/dev/null`, f.Path)
+			if err := rd.Start(); err != nil {
+				c.Count("slow_reader_runs_skipped_no_shell", 1)
+				return
+			}
+			defer func() { rd.Process.Kill(); rd.Wait() }()
 		}
 		res := runChildPipe("", "c12-render", []string{f.Sink, f.Renderer, f.Path, strconv.Itoa(f.Size), strconv.FormatInt(f.Limit, 10)}, env, 3*time.Minute)
 		if f.Fault == "single-cpu" {
@@ -490,7 +508,7 @@ func checkC12(c *Ctx) {
 		mu.Unlock()
 		switch outcome {
 		case "returned":
-			if failed || f.Fault == "single-cpu" && strings.Contains(res.Out, "NUMCPU 1\n") {
+			if failed || f.Fault == "single-cpu" && strings.Contains(res.Out, "NUMCPU 1\n") || strings.HasPrefix(f.Fault, "slow-reader") {
 				c.Distinct(fmt.Sprintf("%s/%s/%s", f.Sink, f.Renderer, f.Fault))
 			} else {
 				c.Count("no_fault_controls_limit_above_file_size", 1)
